@@ -247,6 +247,12 @@ M['cycle_item_definitions_mutual'] = '''  <itemDefinition name="t" id="_t"><item
   <itemDefinition name="u" id="_u"><itemComponent name="t" id="_ut"><typeRef>t</typeRef></itemComponent></itemDefinition>
   <inputData name="y" id="_y"><variable typeRef="t" name="y"/></inputData>
 ''' + decision('<literalExpression><text>y.u.t.u</text></literalExpression>', extra='<informationRequirement id="_ry"><requiredInput href="#_y"/></informationRequirement>\n    ')
+# a declared cycle next to an element of ANOTHER kind that carries the id of a node on the cycle
+TWO = decision('<literalExpression><text>e</text></literalExpression>', extra='<informationRequirement id="_qe"><requiredDecision href="#_e"/></informationRequirement>\n    ') + decision('<literalExpression><text>d</text></literalExpression>', name='e', k='e', extra='<informationRequirement id="_qd"><requiredDecision href="#_d"/></informationRequirement>\n    ')
+M['cycle_next_to_knowledge_model_with_the_id_of_a_node'] = TWO + bkm('g', 'p', []).replace('id="_g"', 'id="_d"')
+M['cycle_next_to_service_with_the_id_of_a_node'] = TWO + decision('<literalExpression><text>1</text></literalExpression>', name='o', k='o') + SVC('<outputDecision href="#_o"/>').replace('id="_svc"', 'id="_e"')
+M['cycle_next_to_input_with_the_id_of_a_node'] = TWO + '  <inputData name="y" id="_d"><variable typeRef="number" name="y"/></inputData>\n'
+M['two_elements_of_different_kinds_with_one_id'] = decision('<literalExpression><text>g(x)</text></literalExpression>', extra='<knowledgeRequirement id="_kr"><requiredKnowledge href="#_d"/></knowledgeRequirement>\n    ') + bkm('g', 'p + 1', []).replace('id="_g"', 'id="_d"')
 for name, body in M.items():
     with open(os.path.join(out, name + '.dmn'), 'w') as f:
         f.write(HEAD.format(name=name) + body + '</definitions>\n')
